@@ -1,13 +1,14 @@
 SPECIFICATION GSpec
 CONSTANTS
-  Files = {"f1", "f2", "f3"}
-  RootOf <- MCRootOf
-  LeavesOf <- MCLeavesOf
-  BundleDefs <- MCBundleDefs
+  Files <- GFiles
+  RootOf <- GRootOf
+  LeavesOf <- GLeavesOf
+  BundleDefs <- GBundleDefs
   ChunkSizes = {1, 2, 3, 7}
   RefreshOnDedup = TRUE
   Faulty = TRUE
   Sample = FALSE
+  Late = FALSE
   OutFile = "purge.ndjson"
 CONSTRAINT Dump
 CHECK_DEADLOCK FALSE
